@@ -632,5 +632,7 @@ func c10one(ctx *vc.Ctx, scn *vc.Scenario, h []c10op) (string, bool) {
 		out = "MISMATCH"
 	}
 	scn.Case(out, nontrivial)
+	scn.Transitions += len(h)
+	scn.AddState(fmt.Sprintf("%+v", fin)) // canonical restored state (members, addresses, clocks)
 	return out, true
 }
